@@ -59,7 +59,7 @@ class VecP2P(VecMPI):
 
 
 def setup_stage(mk, inst, stage):
-    st = mpi_setup(mk, dict(rank=inst['rank'], size=inst['size']))
+    st = mpi_setup(mk, dict(rank=inst['rank'], size=inst['size'], nlevels=inst.get('real_levels', 1), nsweeps=inst.get('nsweeps')))
     st.inst = inst
     c, S, tr, log = st.c, st.S, st.trace, st.log
     VecP2P.log, VecP2P.mk = log, mk
@@ -416,8 +416,149 @@ class CommunicateConvergenceMPI(_StageMPI):
         yield 'canary:done_flag_unchanged', Iff(st.S.status.done, st.done0) and (st.inst['all_to_done'] or (st.inst['rank'] > 0 and not st.inst['prev_done'] and not st.inst['incoming']))
 
 
+def _stub_transfer(st):
+    S, tr = st.S, st.trace
+
+    def transfer(source=None, target=None):
+        tr.append(('transfer', S.levels.index(source), S.levels.index(target)))
+
+    S.transfer = transfer
+
+
+def _sweep_block(r, l, stage, add=False):
+    return [('send_full', l, False), ('recv_full', l, add), ('hook', 'pre_sweep', l), ('update_nodes', r, l), ('compute_residual', r, l, stage), ('hook', 'post_sweep', l)]
+
+
+def _norm(tr):
+    out = []
+    for e in tr:
+        if e[0] == 'hook':
+            out.append(('hook', e[1], e[3]))
+        elif e[0] in ('send_full', 'recv_full', 'transfer', 'update_nodes', 'compute_residual', 'compute_end_point', 'predict'):
+            out.append(tuple(e))
+    return out
+
+
+class LevelCyclesMPI(_StageMPI):
+    """it_down / it_coarse / it_up of controller_MPI: the exact order of transfers, communications, hooks, sweeps and residuals per level"""
+
+    name = 'controller_MPI.it_down / it_coarse / it_up'
+    target = (CM, 'controller_MPI.it_down')
+
+    def instances(self, tier):
+        out = []
+        for r, s in ((0, 1), (0, 2), (1, 2)):
+            for nl, ns in ((2, [1, 1]), (3, [1, 2, 1]), (4, [2, 1, 3, 1])):
+                for fn in ('it_down', 'it_coarse', 'it_up'):
+                    out.append(dict(rank=r, size=s, real_levels=nl, nsweeps=ns, fn=fn))
+        out.append(dict(rank=0, size=1, real_levels=1, nsweeps=None, fn='it_coarse'))
+        return out
+
+    def build(self, inst, mk):
+        st = setup_stage(mk, inst, {'it_down': 'IT_DOWN', 'it_coarse': 'IT_COARSE', 'it_up': 'IT_UP'}[inst['fn']])
+        _stub_comm(st)
+        _stub_transfer(st)
+        orig_send = st.c.send_full
+
+        def send_full(comm=None, blocking=False, level=None, add_to_stats=False):
+            st.trace.append(('send_full', level, blocking) if not add_to_stats else ('send_full', level, blocking, 'stats'))
+
+        st.c.send_full = send_full
+        st.call = lambda: getattr(st.c, inst['fn'])(st.comm, inst['size'])
+        return st
+
+    def post(self, st, old, result, exc):
+        S, inst = st.S, st.inst
+        r, nl, ns, fn = inst['rank'], inst['real_levels'], inst['nsweeps'] or [1], inst['fn']
+        yield 'returns_normally', exc is None
+        if exc is not None:
+            return
+        want = []
+        if fn == 'it_down':
+            want.append(('transfer', 0, 1))
+            for l in range(1, nl - 1):
+                for _ in range(ns[l]):
+                    want += _sweep_block(r, l, 'IT_DOWN')
+                want.append(('transfer', l, l + 1))
+            nxt = 'IT_COARSE'
+        elif fn == 'it_coarse':
+            l = nl - 1
+            want += [('recv_full', l, False), ('hook', 'pre_sweep', l), ('update_nodes', r, l), ('compute_residual', r, l, 'IT_COARSE'), ('hook', 'post_sweep', l), ('compute_end_point', r, l),
+                     ('send_full', l, True, 'stats')]
+            nxt = 'IT_UP' if nl > 1 else 'IT_CHECK'
+        else:
+            for l in range(nl - 1, 0, -1):
+                want.append(('transfer', l, l - 1))
+                if l - 1 > 0:
+                    for k in range(ns[l - 1]):
+                        want += _sweep_block(r, l - 1, 'IT_UP', add=(k == ns[l - 1] - 1))
+            nxt = 'IT_FINE'
+        got = _norm(st.trace)
+        yield 'exact_order_of_transfers_communication_hooks_sweeps_residuals', got == want
+        yield 'next_stage', S.status.stage == nxt
+
+    def canary(self, st, old, result, exc):
+        yield 'canary:nothing_happens', _norm(st.trace) == []
+
+
+class PfasstDispatchMPI(_StageMPI):
+    name = 'controller_MPI.pfasst'
+    target = (CM, 'controller_MPI.pfasst')
+    from pySDC.core.errors import ControllerError
+
+    expected_exceptions = (ControllerError, TypeError)
+
+    def instances(self, tier):
+        return [dict(rank=0, size=2, stage=s) for s in ('SPREAD', 'PREDICT', 'IT_CHECK', 'IT_FINE', 'IT_DOWN', 'IT_COARSE', 'IT_UP', 'BOGUS', 'DONE')]
+
+    def build(self, inst, mk):
+        st = setup_stage(mk, inst, inst['stage'])
+        for stg, fn in zip(('SPREAD', 'PREDICT', 'IT_CHECK', 'IT_FINE', 'IT_DOWN', 'IT_COARSE', 'IT_UP'), ('spread', 'predict', 'it_check', 'it_fine', 'it_down', 'it_coarse', 'it_up')):
+            setattr(st.c, fn, (lambda comm, num_procs, stg=stg: st.trace.append(('stage', stg, comm, num_procs))))
+        real_pfasst = type(st.c).pfasst.__get__(st.c)  # the harness' block stub is for run(); here the real dispatcher is under contract
+        st.call = lambda: real_pfasst(st.comm, inst['size'])
+        return st
+
+    def post(self, st, old, result, exc):
+        inst = st.inst
+        if inst['stage'] in ('BOGUS', 'DONE'):
+            # the code means to raise ControllerError('Weird stage') but calls default() with one argument too many (TypeError): rejected either way
+            yield 'unknown_stage_rejected_with_an_exception_and_nothing_run', exc is not None and not st.trace
+        else:
+            yield 'returns_normally', exc is None
+            yield 'dispatches_once_to_the_stage_function', st.trace == [('stage', inst['stage'], st.comm, inst['size'])]
+
+    def canary(self, st, old, result, exc):
+        yield 'canary:never_raises', exc is None and st.inst['stage'] in ('BOGUS', 'DONE')
+
+
+class SpreadMPI(_StageMPI):
+    name = 'controller_MPI.spread'
+    target = (CM, 'controller_MPI.spread')
+
+    def instances(self, tier):
+        return [dict(rank=r, size=s, real_levels=nl, nsweeps=None) for r, s in ((0, 1), (1, 2)) for nl in (1, 2)]
+
+    def build(self, inst, mk):
+        st = setup_stage(mk, inst, 'SPREAD')
+        st.call = lambda: st.c.spread(st.comm, inst['size'])
+        return st
+
+    def post(self, st, old, result, exc):
+        S, inst, tr = st.S, st.inst, st.trace
+        yield 'returns_normally', exc is None
+        if exc is not None:
+            return
+        got = [(e[0], e[1]) if e[0] == 'hook' else (e[0], e[1] if e[0] == 'cc' else e[2]) for e in tr if e[0] in ('hook', 'predict', 'cc')]
+        yield 'pre_step_hook_then_fine_predictor_then_post_spread_processing', got == [('hook', 'pre_step'), ('predict', 0), ('cc', 'post_spread_processing')]
+        yield 'next_stage', S.status.stage == ('PREDICT' if inst['real_levels'] > 1 else 'IT_CHECK')
+
+    def canary(self, st, old, result, exc):
+        yield 'canary:stage_unchanged', st.S.status.stage == 'SPREAD'
+
+
 def _c03(b):
     return type(b.__name__ + '_C03', (b,), dict(prop='C03'))
 
 
-CONTRACTS = [SendFullMPI, RecvFullMPI, ItCheckMPI, ItCheckMPIForced, ItFineMPI, CommunicateConvergenceMPI]
+CONTRACTS = [SendFullMPI, RecvFullMPI, ItCheckMPI, ItCheckMPIForced, ItFineMPI, CommunicateConvergenceMPI, LevelCyclesMPI, PfasstDispatchMPI, SpreadMPI]
